@@ -48,6 +48,11 @@ class AppCb:
         st.cont()
         return self.ret
 
+    def fire(self, *a):
+        """applications usually register BOUND METHODS (a fresh object on every attribute access, equal but not identical):
+        timers and subscriptions are registered and removed through this bound method"""
+        return self(*a)
+
     def __eq__(self, o):
         return isinstance(o, AppCb) and o.cid == self.cid and o.stack is self.stack
 
@@ -118,6 +123,9 @@ class Stack:
                           tuple((ca._device_address_state, ca._device_address) for ca in self.cas)))
         self.emit([T_TX, can_id, 1 if extended_id else 0, 1 if fd_format else 0, len(d)] + d)
         sim.transmit(self.idx, (can_id, bool(extended_id), d, bool(fd_format)))
+        for h in list(getattr(self, 'tx_hooks', [])):
+            # application calls made by another thread of this node while the frame is being handed to the bus
+            h(can_id, d)
         self.cont()
 
     def deliver(self, frame, via='listener'):
@@ -213,20 +221,20 @@ class Stack:
 
     def add_timer(self, delta, cb, cookie=None):
         self.sim.trace.append((self.sim.now, self.idx, 'api', 'add_timer', cb.cid, us(delta), 1 if cb.ret else 0))
-        return self.call(('add_timer', self.sim.now, us(delta), cb.cid, 1 if cb.ret else 0), lambda: self.ecu.add_timer(delta, cb, cookie))
+        return self.call(('add_timer', self.sim.now, us(delta), cb.cid, 1 if cb.ret else 0), lambda: self.ecu.add_timer(delta, cb.fire, cookie))
 
     def remove_timer(self, cb):
         self.sim.trace.append((self.sim.now, self.idx, 'api', 'remove_timer', cb.cid))
-        return self.call(('remove_timer', self.sim.now, cb.cid), lambda: self.ecu.remove_timer(cb))
+        return self.call(('remove_timer', self.sim.now, cb.cid), lambda: self.ecu.remove_timer(cb.fire))
 
     def subscribe(self, cb, dev_adr=None):
         self.sim.trace.append((self.sim.now, self.idx, 'api', 'subscribe', cb.cid, dev_adr))
         return self.call(('subscribe', self.sim.now, cb.cid, -1 if dev_adr is None else dev_adr),
-                         lambda: self.ecu.subscribe(cb, dev_adr))
+                         lambda: self.ecu.subscribe(cb.fire, dev_adr))
 
     def unsubscribe(self, cb):
         self.sim.trace.append((self.sim.now, self.idx, 'api', 'unsubscribe', cb.cid))
-        return self.call(('unsubscribe', self.sim.now, cb.cid), lambda: self.ecu.unsubscribe(cb))
+        return self.call(('unsubscribe', self.sim.now, cb.cid), lambda: self.ecu.unsubscribe(cb.fire))
 
     def add_ca(self, name_value, addr, bypass):
         import j1939
@@ -238,10 +246,10 @@ class Stack:
         return self.cas[-1]
 
     def ca_subscribe(self, i, cb):
-        self.call(('ca_subscribe', i, cb.cid), lambda: self.cas[i].subscribe(cb))
+        self.call(('ca_subscribe', i, cb.cid), lambda: self.cas[i].subscribe(cb.fire))
 
     def ca_subscribe_request(self, i, cb):
-        self.call(('ca_subreq', i, cb.cid), lambda: self.cas[i].subscribe_request(cb))
+        self.call(('ca_subreq', i, cb.cid), lambda: self.cas[i].subscribe_request(cb.fire))
 
     # ------------------------------------------------------------------ state summary
     def summary(self):
@@ -277,6 +285,10 @@ class Stack:
         n = len(d._rcv_buffer) + len(d._snd_buffer)
         if self.dllname != 'j1939-21':
             n += len(getattr(d, '_multi_pg_snd_buffer', {}))
+            # an idle FD stack has its whole originator capacity (C10_idle_stack_has_full_capacity): a flag still taken
+            # with no session left is a leaked session number
+            for nm in ('_J1939_22__rts_cts_session_list', '_J1939_22__bam_session_list'):
+                n += sum(1 for f in getattr(d, nm, []) if not f) if not (len(d._snd_buffer)) else 0
         return n == 0
 
 
